@@ -1240,7 +1240,8 @@ def check_accessors(cls, meth=None):
     if C is None:
         return None
     spec = {"DocxImage": ("image_index", None), "PptxImage": ("image_index", "slide_number"), "XlsxImage": ("image_index", ("sheet_index", 1)),
-            "OpenDocumentImage": ("image_index", "unit_name"), "EpubImage": ("image_index", "unit_index"), "PdfImage": ("index", "unit_name"), "RtfImage": ("image_index", "page_number")}.get(cls)
+            "OpenDocumentImage": ("image_index", "unit_name"), "EpubImage": ("image_index", "unit_index"), "PdfImage": ("index", "unit_name"), "RtfImage": ("image_index", "page_number"),
+            "DocImage": ("image_number", "unit_number"), "PptImage": ("image_index", ("slide_number", 0)), "XlsImage": ("image_index", None)}.get(cls)
     if spec is None:
         return None
     num, unit = spec
@@ -1294,7 +1295,7 @@ def check_accessors(cls, meth=None):
                 if stream and data is not None:
                     val = _io.BytesIO(data)
                     val.seek(len(data) if pre is None else min(pre, len(data)))
-                img = C(**{num: 1, pay: val})
+                img = C(**{num: 1, pay: val, **({ctf: "image/png"} if ctf == "content_type" else {})})
                 for call in (1, 2):
                     got = img.get_bytes().read()
                     if got != (data or b""):
